@@ -32,6 +32,15 @@ def scenario(beh, stream, kind, seed, flight="app"):
         app = [["c", rng.randint(1, 80)], ["s", rng.randint(1, 80)]]
         shape = {"group": "permsg"}
     cd = dict(ver=ver, suite=suite, seed=seed, shape=shape, app=app, flow=dict(ipv=rng.choice([4, 6])))
+    # initial sequence numbers of the two directions are independent: they may be equal or close, so that segments of
+    # opposite directions start at the same sequence number
+    r3 = rng.random()
+    if r3 < 0.25:
+        x = rng.randrange(1 << 31)
+        cd["isn"] = (x, x)
+    elif r3 < 0.4:
+        x = rng.randrange(1 << 31)
+        cd["isn"] = (x, x + rng.choice([5, 100, 517]))
     sc = dict(conns=[cd])
     # locate the flight
     from harness.tlsrun import build_conn
